@@ -176,3 +176,10 @@ Example ex_windows :
   exists lw lr, nth_error (thr s) 0 = Some lw /\ nth_error (thr s) 1 = Some lr /\
                 wr_window lw false /\ rd_window lr true.
 Proof. vm_compute. do 2 eexists. split; [reflexivity|]. split; [reflexivity|]. split; [left|]; split; reflexivity. Qed.
+(* a write handle released during stack unwinding (ReleaseUnw) commits like any other release *)
+Example ex_release_unwinding :
+  let s0 := init 1 1 3 [] [[Lock 0; Write 0 10; ReleaseUnw 0]] in
+  pc_at (run glob loc tstep s0 (rep 0 15)) 0 = Some W_str /\
+  let s := run glob loc tstep s0 (rep 0 22) in
+  content (heap (gl s) (committed (gl s))) = 10 /\ applied (gl s) = [ESet 10] /\ nret (gl s) = 1%nat /\ omtx (gl s) = None.
+Proof. vm_compute. repeat split. Qed.
